@@ -363,3 +363,65 @@ PLANS['C11'] = dict(
          'non-trivial; distinct = distinct (flavour, point, action, entry) cells + leak scenarios + thread configurations.',
     assumptions=['GIL: preemption happens only where Python code runs', 'valgrind/ASan legs decide reads and freed-memory writes (thorough)'],
 )
+
+
+def _c10_jobs(tier):
+    q = tier == 'quick'
+    shards, cases, steps = (4, 3, 350) if q else (16, 14, 1500)
+    out = [dict(mode=m, shards=shards, cases=cases, steps=steps, mode_independent_rng=True, cfgname='diff') for m in ('py', 'c')]
+    if not q:
+        out.append(dict(mode='c', shards=8, cases=2, steps=600, mode_independent_rng=True, cfgname='asan', runner='asan', build='asan',
+                        keep_traces=False, timeout_s=3600))
+        out.append(dict(mode='c', shards=12, cases=2, steps=250, mode_independent_rng=True, cfgname='valgrind', runner='valgrind',
+                        build='dbg', keep_traces=False, timeout_s=3600))
+    return out
+
+
+def _c10_cross(results, counters):
+    progs = {}
+    for r in results:
+        j = r['job']
+        if j.get('cfgname') != 'diff':
+            continue
+        for tag, d in (r.get('extra', {}).get('programs', {}) or {}).items():
+            progs.setdefault(tag, {})[j['mode']] = (j, d)
+    out, compared, steps = [], 0, 0
+    for tag, d in sorted(progs.items()):
+        if 'py' not in d or 'c' not in d:
+            continue
+        compared += 1
+        (jp, a), (jc, b) = d['py'], d['c']
+        n = min(len(a['chain']), len(b['chain']))
+        steps += n
+        k = next((i for i in range(n) if a['chain'][i] != b['chain'][i]), None)
+        if k is None and len(a['chain']) != len(b['chain']):
+            k = n
+        if k is not None:
+            ta = a['trace'][k] if a.get('trace') and k < len(a['trace']) else '?'
+            tb = b['trace'][k] if b.get('trace') and k < len(b['trace']) else '?'
+            out.append((jc, {'kind': 'py-c-divergence', 'mechanism': classify_divergence(ta, tb),
+                             'case': int(tag.split('_')[1]),
+                             'detail': {'program': tag, 'step': k, 'python': ta[:400], 'c': tb[:400],
+                                        'previous': (a['trace'][max(0, k - 3):k] if a.get('trace') else [])}}))
+    counters['programs_compared'] = compared
+    counters['steps_compared'] = steps
+    return out
+
+
+def classify_divergence(ta, tb):
+    """Known py/C divergences by mechanism (see known_findings.json)."""
+    return None
+
+
+PLANS['C10'] = dict(
+    engine='diff', level='exploration', jobs=_c10_jobs, cross_check=_c10_cross,
+    minimums=lambda t: {'programs_compared': 10, 'steps_compared': 3000, 'steps_with_exception': 200, 'steps_nondefault': 1000},
+    rule='Seeded API programs (declarations, specification queries and rebasing, comparison and hashing, adaptation calls with '
+         'hook-list edits and custom __adapt__, registry mutation and every lookup entry point, plus an error-path grammar: '
+         'non-string names, unhashable / raising-hash provided, lazy and non-sequence required, objects with odd __provides__/'
+         '__providedBy__/__class__/__conform__, foreign comparison operands, keyword call forms) are executed once under '
+         'PURE_PYTHON=1 and once with the C accelerator in separate processes; the canonical traces (results, exception types) are '
+         'compared step by step; the c side also runs under ASan/UBSan and valgrind in the thorough tier.  evaluations = steps '
+         'executed; non-trivial: program with at least one step ending in an exception; distinct = distinct programs.',
+    assumptions=['exception messages and reprs are not compared, only types', 'same PYTHONHASHSEED in both processes'],
+)
